@@ -1,8 +1,9 @@
 (** C11 — property theorems only.  Each is closed by [exact] of a lemma in Proofs*.v and followed
     by [Print Assumptions].  Definitions used in the statements: Model.v (the code), Spec.v (the
     specification side), Proofs3.v (entries, kind_out: closed form of the output), Proofs4.v
-    (outcome_of), Proofs5.v (case_ok), Proofs6.v (item_pos_le). *)
-From V Require Import Base.Util C11.Model C11.Spec C11.Corr C11.Proofs1 C11.Proofs2 C11.Proofs3 C11.Proofs4 C11.Proofs5 C11.Proofs6.
+    (outcome_of), Proofs5.v (case_ok), Proofs6.v (item_pos_le), SpecFull.v (guard-free specification),
+    Proofs8.v (first_orphan_in_document, result_of). *)
+From V Require Import Base.Util C11.Model C11.Spec C11.SpecFull C11.Corr C11.Proofs1 C11.Proofs2 C11.Proofs3 C11.Proofs4 C11.Proofs5 C11.Proofs6 C11.Proofs7 C11.Proofs8.
 From Coq Require Import Permutation Sorted.
 
 Theorem C11_no_extension_survives : forall doc out, resolve doc = inr out -> forall e, ~ In (IExt e) out.
@@ -137,4 +138,82 @@ Theorem C11_sort_is_stable_sort : forall l,
   forall q, filter (same_linecol q) (sort_by_pos l) = filter (same_linecol q) l.
 Proof. exact sort_contract. Qed.
 Print Assumptions C11_sort_is_stable_sort.
+
+Theorem C11_model_meets_spec_full : forall doc, spec_ok_full doc (outcome_of (resolve doc)).
+Proof. exact model_spec_ok_full. Qed.
+Print Assumptions C11_model_meets_spec_full.
+
+Theorem C11_resolve_exact_full : forall doc out,
+  resolve doc = inr out ->
+  exists defs, out = map IDir (dirdefs doc) ++ map IDef defs /\
+               Permutation defs (map (fun d => merge_ref_k d (exts_of (d_kind d) (d_name d) doc)) (all_defs doc)).
+Proof. exact resolve_exact_full. Qed.
+Print Assumptions C11_resolve_exact_full.
+
+Theorem C11_reference_k_wf : forall doc, wf_doc doc = true -> reference_k doc = reference doc.
+Proof. exact reference_k_wf. Qed.
+Print Assumptions C11_reference_k_wf.
+
+Theorem C11_conservation : forall doc out,
+  resolve doc = inr out ->
+  Permutation (parts_out out) (parts_in doc) /\
+  Permutation (map def_head (all_defs out)) (map def_head (all_defs doc)) /\
+  dirdefs out = dirdefs doc.
+Proof. exact conservation. Qed.
+Print Assumptions C11_conservation.
+
+Theorem C11_merged_item_order : forall files builtins out d',
+  resolve_files files builtins = inr out -> In (IDef d') out ->
+  exists d, In (IDef d) (concat files ++ builtins) /\
+    d' = merge_ref_k d (flat_map (exts_of (d_kind d) (d_name d)) files ++ exts_of (d_kind d) (d_name d) builtins).
+Proof. exact merged_item_order. Qed.
+Print Assumptions C11_merged_item_order.
+
+Theorem C11_directive_definitions_pass : forall doc out,
+  resolve doc = inr out ->
+  dirdefs out = dirdefs doc /\ out = map IDir (dirdefs doc) ++ map IDef (all_defs out).
+Proof. exact directive_definitions_pass. Qed.
+Print Assumptions C11_directive_definitions_pass.
+
+Theorem C11_directive_definitions_across_files : forall files builtins,
+  dirdefs (merge_documents files ++ builtins) = flat_map dirdefs files ++ dirdefs builtins.
+Proof. exact dirdefs_files. Qed.
+Print Assumptions C11_directive_definitions_across_files.
+
+Theorem C11_diagnostic_at_offending_item : forall doc e,
+  resolve doc = inl e ->
+  (exists it, In it doc /\ offending doc it /\ item_pos it = Some (diag_pos e)) /\
+  (forall p t, In (p, t) (additional_info e) ->
+     exists it, In it doc /\ offending doc it /\ item_pos it = Some p).
+Proof. exact diagnostic_at_offending_item. Qed.
+Print Assumptions C11_diagnostic_at_offending_item.
+
+Theorem C11_fails_iff_offending : forall doc,
+  (exists e, resolve doc = inl e) <-> (exists it, In it doc /\ offending doc it).
+Proof. exact fails_iff_offending. Qed.
+Print Assumptions C11_fails_iff_offending.
+
+Theorem C11_orphan_error_in_document : forall doc elem p,
+  resolve doc = inl (NoOriginal elem p) ->
+  ~ dup_original doc /\
+  exists x, first_orphan_in_document doc x /\ elem = name_of_elem (e_kind x) /\ p = e_pos x /\
+    exists pre post, kinds_in_output_order = pre ++ e_kind x :: post /\
+      forall k', In k' pre -> forall y, In (IExt y) doc -> e_kind y = k' -> defs_of k' (e_name y) doc <> [].
+Proof. exact orphan_error_in_document. Qed.
+Print Assumptions C11_orphan_error_in_document.
+
+Theorem C11_spec_ok_b_complete : forall doc o, spec_ok doc o -> spec_ok_b doc o = true.
+Proof. exact spec_ok_b_complete. Qed.
+Print Assumptions C11_spec_ok_b_complete.
+
+Theorem C11_holds_complete : forall c, case_ok c -> holds c = true.
+Proof. exact holds_complete. Qed.
+Print Assumptions C11_holds_complete.
+
+Theorem C11_check_accepts_model : forall files builtins,
+  wf_doc (merge_documents files ++ builtins) = true ->
+  holds (Case files builtins (result_of (resolve_files files builtins))) = true /\
+  agree (Case files builtins (result_of (resolve_files files builtins))) = true.
+Proof. exact check_accepts_model. Qed.
+Print Assumptions C11_check_accepts_model.
 
